@@ -847,18 +847,37 @@ pub fn observe(c: &Chain, cfg: &Cfg) -> Value {
     qok &= c.try_q::<basset::hub::NewOwnerResponse, _>("hub", &HQ::NewOwner {}).is_ok();
     for a in cfg.accts() {
         qok &= c.try_q::<basset::hub::UnbondRequestsResponse, _>("hub", &HQ::UnbondRequests { address: a.clone() }).is_ok();
-        if c.time >= cfg.unbonding {
+        if basset_sei_hub::state::PARAMETERS.load(c.stores.get("hub").unwrap()).map_or(false, |p| c.time >= p.unbonding_period) {
             qok &= std::panic::catch_unwind(std::panic::AssertUnwindSafe(|| c.try_q::<basset::hub::WithdrawableUnbondedResponse, _>("hub", &HQ::WithdrawableUnbonded { address: a.clone() }).is_ok())).unwrap_or(false);
         }
     }
+    let mut withdrawable = Map::new();
+    let mut accrued = Map::new();
+    for a in cfg.accts() {
+        let par = basset_sei_hub::state::PARAMETERS.load(c.stores.get("hub").unwrap()).ok();
+        let w = if par.map_or(false, |p| c.time >= p.unbonding_period) {
+            std::panic::catch_unwind(std::panic::AssertUnwindSafe(|| {
+                c.try_q::<basset::hub::WithdrawableUnbondedResponse, _>("hub", &HQ::WithdrawableUnbonded { address: a.clone() }).map(|r| r.withdrawable.u128()).unwrap_or(0)
+            }))
+            .unwrap_or(0)
+        } else {
+            0
+        };
+        withdrawable.insert(a.clone(), n(w));
+        let acc = std::panic::catch_unwind(std::panic::AssertUnwindSafe(|| {
+            c.try_q::<basset::reward::AccruedRewardsResponse, _>("reward", &basset::reward::QueryMsg::AccruedRewards { address: a.clone() }).map(|r| r.rewards.u128()).unwrap_or(0)
+        }))
+        .unwrap_or(0);
+        accrued.insert(a.clone(), n(acc));
+    }
     match c.try_q::<basset::hub::StateResponse, _>("hub", &HQ::State {}) {
-        Ok(_) => json!({"rep": reported(c), "qok": qok}),
+        Ok(_) => json!({"rep": reported(c), "qok": qok, "withdrawable": withdrawable, "accrued": accrued}),
         Err(_) => {
             let s = basset_sei_hub::state::STATE.load(c.stores.get("hub").unwrap()).unwrap();
             json!({"rep": {"bondB": n(s.total_bond_bsei_amount.u128()), "bondSt": n(s.total_bond_stsei_amount.u128()),
                 "rateB": limbs(s.bsei_exchange_rate), "rateSt": limbs(s.stsei_exchange_rate),
                 "prevBal": n(s.prev_hub_balance.u128()), "lastUnb": s.last_unbonded_time, "lastProc": s.last_processed_batch,
-                "lastIdx": s.last_index_modification}, "qok": false})
+                "lastIdx": s.last_index_modification}, "qok": false, "withdrawable": withdrawable, "accrued": accrued})
         }
     }
 }
